@@ -108,6 +108,13 @@ def vars_of(I, obj):
             for pobj in sl.suffix:
                 t = sym.union(t, vars_of(I, pobj))
             return t
+        if isinstance(sl, gmode.ConcatList):
+            t = sym.empty_set()
+            for i_, part in enumerate(sl.parts):
+                t = sym.union(t, gmode.bigunion(I, part.length, lambda u, part=part: vars_of(I, part.elem(u)), f"Vars({obj.name}#{i_})"))
+            for pobj in sl.suffix:
+                t = sym.union(t, vars_of(I, pobj))
+            return t
         if isinstance(sl, gmode.ConsList):
             wo = getattr(sl.rest, "without_of", None)
             if wo is not None:
@@ -289,6 +296,22 @@ def _partition_lemma(I, obj, part, pt):
     gmode.qm(I).links.append(w == (a + b if obj.cls.name == "Add" else a * b))
 
 
+def _negated_operands_lemma(I, obj, part, pt):
+    """part = the operands u_i of a list of Negation nodes:  prod_i (-V(u_i)) = (-1)^c * prod_i V(u_i),
+    sum_i (-V(u_i)) = - sum_i V(u_i)   (spec/lemmas.lean: ax_bigprod_neg, ax_bigsum_neg)."""
+    from . import gmode
+    src = getattr(part, "inner_of", None)
+    if src is None or getattr(src, "guard_class", None) != "Negation" or gmode.keying():
+        return
+    c = part.length
+    inner_v = lambda t: den(I, part.elem(t), pt).V
+    neg_v = lambda t: -den(I, part.elem(t), pt).V
+    if obj.cls.name == "Add":
+        gmode.qm(I).links.append(gmode.bigsum(I, neg_v, c) == -gmode.bigsum(I, inner_v, c))
+    else:
+        gmode.qm(I).links.append(gmode.bigprod(I, neg_v, c) == z3.If(c % 2 == 0, 1, -1) * gmode.bigprod(I, inner_v, c))
+
+
 def _no_dv(name):
     from .interp import Unsupported
     raise Unsupported("G-mode: derivative of a node with a split operand list")
@@ -298,6 +321,21 @@ def _gmode_den(I, obj, pt):
     """Add / Multiply of symbolic arity: big operators over the children family."""
     from . import gmode
     sl = obj.fields["_inners"]
+    if isinstance(sl, gmode.ConcatList):
+        big = gmode.bigsum if obj.cls.name == "Add" else gmode.bigprod
+        Ds, V = [], None
+        for i_, part in enumerate(sl.parts):
+            pk = lambda t, part=part: den(I, part.elem(t), pt)
+            Ds.append(gmode.forall_const(I, part.length, lambda t, pk=pk: pk(t).D, f"D({obj.name}#{i_})"))
+            v = big(I, lambda t, pk=pk: pk(t).V, part.length)
+            V = v if V is None else ((V + v) if obj.cls.name == "Add" else (V * v))
+            _partition_lemma(I, obj, part, pt)
+            _negated_operands_lemma(I, obj, part, pt)
+        for pobj in sl.suffix:
+            d = den(I, pobj, pt)
+            Ds.append(d.D)
+            V = (V + d.V) if obj.cls.name == "Add" else (V * d.V)
+        return Den(z3.And(*Ds), V, _no_dv)
     if isinstance(sl, gmode.SnocList):
         suf = [den(I, pobj, pt) for pobj in sl.suffix]
         rk = lambda t: den(I, sl.rest.elem(t), pt)
